@@ -214,8 +214,9 @@ class CSSNamespaceRule(cssrule.CSSRule):
             # set all
             if wellformed:
                 self.atkeyword = new['keyword']
-                self._prefix = new['prefix']
+                # may raise (the URI is readonly once set): before the prefix
                 self.namespaceURI = new['uri']
+                self._prefix = new['prefix']
                 self._setSeq(newseq)
 
     cssText = property(
